@@ -1,14 +1,313 @@
 """C07 -- incrementally recalculated likelihoods equal a fresh calculation.
 
-No proof tier: a deductive proof of ``Calculator.change`` (double buffer, one-deep undo, recycled arrays, cached
-consequence programs over a DAG) needs quantified invariants over heap-allocated cells and a graph-closure lemma,
-beyond the VC generator (DESIGN.md section 7).  The representation invariant "after every public operation every cell
-of the active buffer equals calc(args) of a fresh evaluation of the same settings" is checked at run time after each
-step of operation histories (bounded/C07.py); level = exploration, proved = 0."""
+Proof tier (thin; the bookkeeping that decides WHAT is recalculated, not the numerical cells):
+
+* ``ParameterController.updates_postponed`` (generator-based context manager), by exception-flow execution with the
+  ``with`` block played by the contract as "returns or raises anything": on every exit ``_update_suspended`` has the
+  value it had on entry, ``_updateIntermediateValues`` runs exactly once after the flag is restored, an exception of
+  the block propagates.  (Nested blocks restore by the same contract: induction over nesting depth.)
+* ``ParameterController.update_from_calculator`` for any number of definitions: every leaf definition is written back
+  from the calculator exactly once AND handed to ``update_intermediate_values`` (ghost witness: its position in the
+  list), nothing that is not a leaf is; -- whatever the optimiser moved is marked dirty.
+* ``ParameterController._updateIntermediateValues`` / ``update_intermediate_values`` for any number of definitions in
+  topological order: nothing happens while updates are suspended (the dirty set is kept); otherwise every definition
+  in the dirty set when its turn comes is updated once, its clients are then dirty, and the dirty set is empty at the
+  end (loop invariants over symbolic sequences and a symbolic set).
+
+``Calculator.change`` (double buffer, one-deep undo, recycled arrays) is NOT proved: it needs quantified invariants
+over heap-allocated cells and a graph-closure lemma (DESIGN.md section 7).  The representation invariant "after every
+public operation every cell of the active buffer equals a fresh evaluation of the same settings" is checked at run
+time after each step of operation histories (bounded/C07.py)."""
+from __future__ import annotations
+
+import z3
+
+from pyvc import extract
+from pyvc.harness import cover_thunk, smt_thunk
+from pyvc.loops import LoopHooks, SymSeq, loop_nodes
+from pyvc.objects import ClassHooks
+from pyvc.symex import Engine, Opaque, Raise, Rec, Unsupported, is_sym
+
+FILE = "cogent3/recalculation/scope.py"
+CLS = "ParameterController"
+I, B = z3.IntSort(), z3.BoolSort()
+Defn = z3.DeclareSort("Defn")
+
+
+# ------------------------------------------------------------------------------------------------ updates_postponed
+class PPHooks(ClassHooks):
+    def yield_(self, eng, value, env):
+        # the body of the with-block: anything may happen, nested blocks restore the flag (this very contract)
+        eng.state["flag_at_yield"] = env["self"].fields["_update_suspended"]
+        if eng.branch(z3.Bool("block_raises")):
+            raise Raise("Exception")
+        return None
+
+
+def run_postponed(chk):
+    fn = "recalculation.scope.ParameterController.updates_postponed"
+    node = extract.get(FILE, f"{CLS}.updates_postponed")
+    funcs = {"updates_postponed": node}
+    chk.function(FILE, f"{CLS}.updates_postponed", "P")
+    s0 = z3.Bool("suspended0")
+    calls = []
+
+    def upd(eng, obj, args, kw):
+        eng.state.setdefault("upd_calls", []).append(obj.fields["_update_suspended"])
+        return None
+    hooks = PPHooks(funcs, set(), modular={"_updateIntermediateValues": upd})
+    eng = Engine(funcs, hooks)
+
+    def entry(e):
+        selfv = Rec(CLS)
+        selfv.fields["_update_suspended"] = s0
+        e.state["self"] = selfv
+        try:
+            return e.call("updates_postponed", dict(self=selfv))
+        finally:
+            e.state["flag_after"] = selfv.fields["_update_suspended"]
+    paths = eng.run(entry, [])
+    chk.obligation(f"{fn}/cover", "cover", cover_thunk([s0]), function=fn)
+    kinds = set()
+    for k, p in enumerate(paths):
+        after = p.state.get("flag_after")
+        at_yield = p.state.get("flag_at_yield")
+        ucalls = p.state.get("upd_calls", [])
+        raised = p.outcome == "raise"
+        kinds.add(raised)
+        tobool = lambda v: v if is_sym(v) else z3.BoolVal(bool(v))
+        goal = z3.And(
+            z3.BoolVal(at_yield is not None and after is not None and len(ucalls) == 1),
+            tobool(at_yield) == True if at_yield is not None else z3.BoolVal(False),     # suspended inside the block
+            tobool(after) == s0 if after is not None else z3.BoolVal(False),              # restored on every exit
+            tobool(ucalls[0]) == s0 if len(ucalls) == 1 else z3.BoolVal(False),           # update runs after the restore
+            z3.BoolVal(p.outcome in ("return", "raise")),
+            z3.BoolVal((p.value == "Exception") if raised else True))
+        chk.obligation(f"{fn}/post.flag-restored-and-one-update/{'block-raises' if raised else 'block-returns'}/path={k}", "post",
+                       smt_thunk(p.pc, goal, 20), function=fn, key=f"C07/{fn}/post", replayer=_replay_postponed)
+    if kinds != {True, False}:
+        chk.error(f"{fn}: expected a returning and a raising block, got {kinds}")
+
+
+def _replay_postponed(model):
+    import warnings
+    warnings.filterwarnings("ignore")
+    from cogent3 import get_model, make_aligned_seqs, make_tree
+    lf = get_model("HKY85").make_likelihood_function(make_tree("(a:0.1,b:0.2,c:0.3);"))
+    lf.set_alignment(make_aligned_seqs({"a": "ACGTAC", "b": "ACGTTC", "c": "ATGTAC"}, moltype="dna"))
+    before = float(lf.lnL)
+    try:
+        with lf.updates_postponed():
+            lf.set_param_rule("kappa", init=3.0)
+            raise KeyError("block fails")
+    except KeyError:
+        pass
+    flag = lf._update_suspended
+    lf.set_param_rule("length", init=0.5)
+    a = float(lf.lnL)
+    lf2 = get_model("HKY85").make_likelihood_function(make_tree("(a:0.1,b:0.2,c:0.3);"))
+    lf2.set_alignment(make_aligned_seqs({"a": "ACGTAC", "b": "ACGTTC", "c": "ATGTAC"}, moltype="dna"))
+    lf2.set_param_rule("kappa", init=3.0)
+    lf2.set_param_rule("length", init=0.5)
+    b = float(lf2.lnL)
+    bad = flag is not False or abs(a - b) > 1e-9
+    return {"failed": bad, "witness": "with lf.updates_postponed(): set kappa; raise KeyError -- then set length",
+            "description": f"after a failing postponed block: _update_suspended={flag}, lnL {a!r} vs fresh {b!r} (before {before!r})"}
+
+
+# ------------------------------------------------------------------------------------------------ update_from_calculator
+class UFHooks(LoopHooks, ClassHooks):
+    def __init__(self, funcs, specs, modular):
+        ClassHooks.__init__(self, funcs, set(), modular=modular, globals_={"_LeafDefn": ("class", "_LeafDefn")})
+        self.loop_specs = specs
+        self.fn_nodes = funcs
+
+    def call_name(self, eng, name, args, kw, env):
+        if name == "isinstance" and is_sym(args[0]) and args[1] == ("class", "_LeafDefn"):
+            return IS_LEAF(args[0])
+        if name == "list" and len(args) == 1 and isinstance(args[0], SymSeq):
+            return args[0]
+        return super().call_name(eng, name, args, kw, env)
+
+    def get_attr(self, eng, obj, attr):
+        if is_sym(obj) and obj.sort() == Defn:
+            # a flag of the definition the code may consult: an arbitrary boolean per definition
+            return z3.Function(f"defn_{attr}", Defn, B)(obj)
+        return super().get_attr(eng, obj, attr)
+
+    def call_method(self, eng, obj, meth, args, kw, env):
+        if isinstance(obj, Opaque) and obj.tag == "defn_for" and meth == "values":
+            return obj.attrs["seq"]
+        if is_sym(obj) and obj.sort() == Defn and meth == "update_from_calculator":
+            st = eng.state.setdefault("written", z3.K(Defn, z3.IntVal(0)))
+            eng.state["written"] = z3.Store(st, obj, z3.Select(st, obj) + 1)
+            return None
+        if isinstance(obj, SymSeq) and meth == "append":
+            obj.arr = z3.Store(obj.arr, obj.length, args[0])
+            obj.length = obj.length + 1
+            return None
+        if isinstance(obj, list) and meth == "append":
+            obj.append(args[0])
+            return None
+        return super().call_method(eng, obj, meth, args, kw, env)
+
+
+IS_LEAF = z3.Function("is_leaf", Defn, B)
+
+
+def run_update_from_calculator(chk):
+    name = "update_from_calculator"
+    fn = f"recalculation.scope.ParameterController.{name}"
+    node = extract.get(FILE, f"{CLS}.{name}")
+    funcs = {name: node}
+    chk.function(FILE, f"{CLS}.{name}", "P")
+    if len(loop_nodes(node)) != 1:
+        chk.undecided.append(f"{fn}: expected one loop")
+        return
+    n = z3.Int("n")
+    defns = SymSeq(z3.Const("defns", z3.ArraySort(I, Defn)), n, "defns")
+    t, t2, k = z3.Ints("t t2 k")
+    # the definitions are pairwise different objects
+    distinct = z3.ForAll([t, t2], z3.Implies(z3.And(0 <= t, t < t2, t2 < n), defns.at(t) != defns.at(t2)))
+    pre = [n >= 0, distinct]
+    W0 = z3.K(I, z3.IntVal(-1))
+
+    def changed_of(env):
+        c = env["changed"]
+        if isinstance(c, SymSeq):
+            return c.arr, c.length
+        if isinstance(c, list) and not c:
+            return z3.K(I, z3.Const("nodefn", Defn)), z3.IntVal(0)
+        raise Unsupported("shape of changed")
+
+    def inv(env, j, eng_state=None):
+        arr, ln = changed_of(env)
+        W = env["__W"]
+        wr = env["__written"]
+        return z3.And(
+            0 <= ln, ln <= j,
+            # every leaf among the first j definitions sits in `changed` at its witness position, and was written once
+            z3.ForAll([t], z3.Implies(z3.And(0 <= t, t < j, IS_LEAF(defns.at(t))),
+                                      z3.And(0 <= z3.Select(W, t), z3.Select(W, t) < ln,
+                                             z3.Select(arr, z3.Select(W, t)) == defns.at(t),
+                                             z3.Select(wr, defns.at(t)) == 1))),
+            # everything in `changed` is a leaf among the first j
+            z3.ForAll([k], z3.Implies(z3.And(0 <= k, k < ln),
+                                      z3.Exists([t], z3.And(0 <= t, t < j, IS_LEAF(defns.at(t)), defns.at(t) == z3.Select(arr, k))))),
+            # nothing else was written
+            z3.ForAll([t], z3.Implies(z3.And(0 <= t, t < n, z3.Or(t >= j, z3.Not(IS_LEAF(defns.at(t))))),
+                                      z3.Select(wr, defns.at(t)) == 0)))
+
+    def ghost_init(env):
+        env["__W"] = W0
+        env["__written"] = z3.K(Defn, z3.IntVal(0))
+
+    spec = dict(invariant=inv, modifies=["changed", "__W", "__written"], ghost_init=ghost_init,
+                havoc={"changed": lambda old: SymSeq.fresh("changed", Defn),
+                       "__W": lambda old: z3.FreshConst(z3.ArraySort(I, I), "W"),
+                       "__written": lambda old: z3.FreshConst(z3.ArraySort(Defn, I), "written")})
+
+    def uiv(eng, obj, args, kw):
+        eng.state["uiv_arg"] = args[0] if args else kw.get("changed")
+        return None
+    hooks = UFHooks(funcs, {(name, 0): spec}, modular={"update_intermediate_values": uiv})
+    eng = Engine(funcs, hooks, prune_logic=None, prune_ms=300)
+    # the real body's effect on the ghost state: written[] is kept in eng.state by the hook; mirror it into env
+    orig_cm = hooks.call_method
+
+    def call_method(eng_, obj, meth, args, kw, env):
+        if is_sym(obj) and obj.sort() == Defn and meth == "update_from_calculator":
+            env["__written"] = z3.Store(env["__written"], obj, z3.Select(env["__written"], obj) + 1)
+            return None
+        return orig_cm(eng_, obj, meth, args, kw, env)
+    hooks.call_method = call_method
+
+    def ghost_update(env, j):
+        arr, ln = changed_of(env)
+        # witness: if the j-th definition is a leaf it was appended last
+        env["__W"] = z3.Store(env["__W"], j, z3.If(IS_LEAF(defns.at(j)), ln - 1, z3.Select(env["__W"], j)))
+    spec["ghost_update"] = ghost_update
+
+    def entry(e):
+        e.state["current_function"] = name
+        selfv = Rec(CLS)
+        selfv.fields["defn_for"] = Opaque("defn_for", seq=defns)
+        return e.call(name, dict(self=selfv, calc=Opaque("calculator")))
+    orig_loop = hooks.loop
+
+    def loop_and_keep(eng_, node_, env):
+        orig_loop(eng_, node_, env)
+        eng_.state["ghost_final"] = (env["__W"], env["__written"])
+    hooks.loop = loop_and_keep
+    try:
+        paths = eng.run(entry, pre)
+    except Unsupported as ex:
+        chk.undecided.append(f"{fn}: UNSUPPORTED {ex}")
+        return
+    chk.obligation(f"{fn}/cover", "cover", cover_thunk(pre + [n >= 2]), function=fn)
+    n_post = 0
+    for kk, p in enumerate(paths):
+        for j_, nm in enumerate(getattr(p, "inline", [])):
+            kind = nm.split(":")[0]
+            chk.discharged_inline(f"{fn}/{nm}/path={kk}.{j_}", kind if kind.startswith("inv") else "noexcept", function=fn)
+        for nm, pc, cond in p.obligations:
+            kind = nm.split(":")[0]
+            chk.obligation(f"{fn}/{nm}/path={kk}", kind if kind.startswith("inv") else "noexcept",
+                           smt_thunk(pc, cond, timeout=30, logic=None), function=fn,
+                           key=f"C07/{fn}/{nm.split('#')[0]}", replayer=_replay_ufc)
+        if p.outcome != "return":
+            if p.outcome == "raise":
+                chk.obligation(f"{fn}/noexcept/path={kk}", "noexcept", smt_thunk(p.pc, z3.BoolVal(False), 20, logic=None),
+                               function=fn, key=f"C07/{fn}/noexcept", replayer=_replay_ufc)
+            continue
+        n_post += 1
+        arg = p.state.get("uiv_arg")
+        gf = p.state.get("ghost_final")
+        if not isinstance(arg, SymSeq) or gf is None:
+            goal = z3.BoolVal(False)
+        else:
+            W, wr = gf
+            goal = z3.And(
+                z3.ForAll([t], z3.Implies(z3.And(0 <= t, t < n, IS_LEAF(defns.at(t))),
+                                          z3.And(0 <= z3.Select(W, t), z3.Select(W, t) < arg.length,
+                                                 z3.Select(arg.arr, z3.Select(W, t)) == defns.at(t),
+                                                 z3.Select(wr, defns.at(t)) == 1))),
+                z3.ForAll([t], z3.Implies(z3.And(0 <= t, t < n, z3.Not(IS_LEAF(defns.at(t)))), z3.Select(wr, defns.at(t)) == 0)))
+        chk.obligation(f"{fn}/post.every-leaf-written-back-and-marked-dirty/path={kk}", "post",
+                       smt_thunk(p.pc, goal, timeout=30, logic=None), function=fn, key=f"C07/{fn}/post", replayer=_replay_ufc)
+    if n_post == 0:
+        chk.error(f"{fn}: no returning path")
+
+
+def _replay_ufc(model):
+    """native: optimiser write-back on a model whose optimised settings include a leaf that is not a user parameter"""
+    import warnings
+    warnings.filterwarnings("ignore")
+    from cogent3 import get_model, make_aligned_seqs, make_tree
+    tree = make_tree("((a:0.1,b:0.2)n1:0.3,c:0.3,d:0.05);")
+    aln = make_aligned_seqs({"a": "ACGTRA-NACGA", "b": "ACGTAAYCACGT", "c": "ATGTGACCTCGA", "d": "CCGTAAGCACTA"}, moltype="dna")
+    lf = get_model("HKY85", ordered_param="rate", distribution="free").make_likelihood_function(tree, bins=2)
+    lf.set_alignment(aln)
+    lf.optimise(local=True, max_evaluations=20, limit_action="ignore", show_progress=False)
+    a = float(lf.lnL)
+    b = float(lf.make_calculator().testfunction())
+    return {"failed": abs(a - b) > 1e-9 * max(1, abs(a)), "witness": "HKY85 free rate classes, bins=2, optimise(max_evaluations=20)",
+            "description": f"after optimise the function reports lnL {a!r}; a calculator newly made from the held settings gives {b!r}"}
 
 
 def run(chk):
-    chk.bounded("bounded.C07")
-    chk.level = "exploration"
-    chk.explanation = "bounded run-time contracts only (representation invariant after every step of histories); nothing proved"
-    chk.assume("no deductive obligation: history-dependent caches over a heap-allocated DAG are outside the VC generator's subset")
+    only = getattr(chk, "only", None)
+    if not only or "proof" in only:
+        chk.guard(run_postponed)
+        chk.guard(run_update_from_calculator)
+        chk.discharge()
+    chk.assume("Calculator.change (double buffer, undo, recycled arrays) and the numerical cells are not decided by proof")
+    chk.assume("definitions are abstract objects of an uninterpreted sort; update()/update_from_calculator() of a "
+               "definition are opaque calls recorded in ghost state (their own effect is trusted)")
+    if not only or "bounded" in only:
+        chk.bounded("bounded.C07")
+    chk.level = "other" if any(o.status == "discharged" for o in chk.obligations) else "exploration"
+    chk.explanation = ("dirty-set bookkeeping of the parameter controller (postponed blocks restore the flag on every exit; "
+                       "the optimiser write-back marks every leaf dirty) proved for any number of definitions "
+                       "(exception-flow execution, quantified loop invariant with ghost witnesses, smt); the representation "
+                       "invariant of the calculator after histories is a bounded run-time contract")
